@@ -1,1 +1,21 @@
-fn main() { eprintln!("not implemented"); std::process::exit(2); }
+//! p-resolve: bounded-exhaustive checks of the resolution logic.
+//!
+//!   C05 — query answers follow the DNS resolution algorithm (server level)
+//!   C06 — zone lookups follow RFC 1034 / RFC 4592 (store level)
+//!
+//! Both compare quandary with the independent reference model in
+//! `refdns.rs`; the input universes are described in `universe.rs`.
+
+mod c05;
+mod c06;
+mod refdns;
+mod universe;
+
+fn main() {
+    let ctx = qvlib::Ctx::from_args(&["C05", "C06"]);
+    match ctx.id.as_str() {
+        "C05" => c05::run(ctx),
+        "C06" => c06::run(ctx),
+        _ => unreachable!(),
+    }
+}
